@@ -14,7 +14,7 @@ from typing import Dict, List, Optional, Tuple
 import common
 import spec as S
 
-GEN_VERSION = "19"
+GEN_VERSION = "21"
 
 STRUM_DERIVES = ["EnumString", "Display", "AsRefStr", "IntoStaticStr", "VariantNames", "EnumIter", "EnumCount", "FromRepr",
                  "VariantArray", "EnumDiscriminants", "EnumIs", "EnumTryAs", "EnumMessage", "EnumProperty", "EnumTable",
@@ -117,13 +117,17 @@ class E:
             out.append(r)
         if self.repr:
             out.append("#[repr(%s)]" % self.repr)
+        single = sum(ord(c) for c in self.name) % 2 == 1      # half of the enums configure a single-segment local alias
+        cpath = "st" if single else "crate::reexp::strum_renamed"
         if any(d in STRUM_DERIVES for d in self.derives):
-            out.append("#[cfg_attr(feature = \"renamed\", strum(crate = \"crate::reexp::strum_renamed\"))]")
+            if single:
+                out.insert(4, "#[cfg(feature = \"renamed\")] use crate::reexp::strum_renamed as st;")
+            out.append("#[cfg_attr(feature = \"renamed\", strum(crate = \"%s\"))]" % cpath)
         for a in self.attrs:
             if a:
                 out.append("#[strum(%s)]" % ", ".join(a))
         if any(("derive(" in m and any(d in m for d in STRUM_DERIVES)) for a in self.disc_attrs for m in a):
-            out.append("#[cfg_attr(feature = \"renamed\", strum_discriminants(strum(crate = \"crate::reexp::strum_renamed\")))]")
+            out.append("#[cfg_attr(feature = \"renamed\", strum_discriminants(strum(crate = \"%s\")))]" % cpath)
         for a in self.disc_attrs:
             if a:
                 out.append("#[strum_discriminants(%s)]" % ", ".join(a))
@@ -167,6 +171,7 @@ pub fn dw_txt() -> Txt { Txt::from("dw") }
 #[derive(Debug, PartialEq, Eq, Clone, Copy)]
 pub struct MyErr(pub usize);
 pub fn my_err(s: &str) -> MyErr { MyErr(s.len()) }
+pub fn not_found(s: &str) -> MyErr { MyErr(s.len() + 7) }
 pub mod errs { pub use super::MyErr as Deep; pub fn deep(s: &str) -> Deep { super::MyErr(s.len() + 1) } }
 pub const K5: u8 = 5;
 pub const KM2: i16 = -2;
@@ -530,6 +535,12 @@ def family_style_ci(start: int) -> List[E]:
             metas = (["serialize_all = %s" % rstr(style)] if style else []) + (["ascii_case_insensitive"] if e_aci else [])
             out.append(E("Sci%04d" % eid, "style_ci", ["EnumString", "Display", "VariantNames", "AsRefStr"], vs, attrs=[metas] if metas else []))
             eid += 1
+        # every serialization case-insensitive, more than four of them, data variants and a default variant included
+        vs = [V("AlphaOne"), V("beta_two", "tuple", [(None, "u8")]), V("GAMMA3", attrs=[["serialize = \"g3\"", "serialize = \"gamma-three\""]]), V("Delta", "named", [("a", "i32")]),
+              V("Epsilon5"), V("Rest", "tuple", [(None, "Txt")], attrs=[["default"]])]
+        metas = (["serialize_all = %s" % rstr(style)] if style else []) + ["ascii_case_insensitive"]
+        out.append(E("Sci%04d" % eid, "style_ci", ["EnumString", "Display"], vs, attrs=[metas]))
+        eid += 1
     return out
 
 
@@ -556,6 +567,27 @@ def family_case_pairs(start: int) -> List[E]:
     for i, (emetas, vs_) in enumerate(shapes):
         vs = [V(n, "unit", [], [m_] if m_ else []) for n, m_ in vs_]
         out.append(E("Cpr%04d" % (start + i), "case_pairs", ["EnumString", "Display", "AsRefStr", "IntoStaticStr", "EnumMessage", "VariantNames"], vs, attrs=[emetas] if emetas else []))
+    return out
+
+
+def family_err_combos(start: int) -> List[E]:
+    """Family A8: custom parse error x {no default, default, disabled default, all case-insensitive, bare fn names}."""
+    out = []
+    shapes = [
+        (["parse_err_ty = MyErr", "parse_err_fn = not_found"], [("Alpha", []), ("Beta", ["ascii_case_insensitive"]), ("Gamma3", ['serialize = "g"'])]),
+        (["parse_err_ty = MyErr", "parse_err_fn = my_err"], [("Alpha", []), ("Hidden", ["disabled", "default"]), ("Gamma3", [])]),
+        (["parse_err_fn = errs::deep", "parse_err_ty = errs::Deep"], [("Alpha", []), ("Hidden", ["default"], ), ("Off", ["disabled"])]),
+        (["parse_err_ty = MyErr", "parse_err_fn = my_err", "ascii_case_insensitive"], [("Alpha", []), ("BetaTwo", []), ("Gamma3", []), ("delta_four", []), ("Eps5", ['serialize = "e5"', 'serialize = "eps"'])]),
+        (["parse_err_ty = MyErr", "parse_err_fn = my_err"], []),
+    ]
+    for i, (emetas, vs_) in enumerate(shapes):
+        vs = []
+        for n, m_ in vs_:
+            if "default" in m_:
+                vs.append(V(n, "tuple", [(None, "Txt")], [m_]))
+            else:
+                vs.append(V(n, "unit", [], [m_] if m_ else []))
+        out.append(E("Err%04d" % (start + i), "err_combos", ["EnumString", "Display"] if vs else ["EnumString"], vs, attrs=[emetas]))
     return out
 
 
@@ -899,6 +931,7 @@ def generate(tier: str, seed: int) -> List[E]:
     es += family_strings(rng, 70 if tier == "quick" else 1000, 1)
     es += family_unit_strings(rng, 24 if tier == "quick" else 240, 1)
     es += family_big(1, [33, 257] if tier == "quick" else [33, 64, 129, 257, 600])
+    es += family_err_combos(1)
     es += family_case_pairs(1)
     es += family_raw_idents(1)
     es += family_style_ci(1)
